@@ -97,6 +97,21 @@ Section Cls.
                       end) P.
   Definition class_b : bool :=
     closed_b && alias_ok_b && uscore_plain_b && expand1_uniform_b && single_ok_b.
+
+  (* the further hypotheses of the completeness / full round-trip theorems *)
+  Definition extra_b : bool :=
+    forallb (fun r => negb (skipped uscore P r) && match filter kept (p_exp r) with [] => false | _ => true end) P.
+  Definition lits_b (lit : nat -> option string) : bool :=
+    forallb (fun r => forallb (fun s => match s with
+                                        | Tm n true => match lit n with Some _ => true | None => false end
+                                        | _ => true end) (p_exp r)) P.
+  Definition disj_b : bool :=
+    forallb (fun r => forallb (fun s => match s with
+                                        | Tm n _ => forallb (fun r' => negb (Nat.eqb (p_origin r') n) &&
+                                                                      match p_alias r' with
+                                                                      | Some al => negb (Nat.eqb al n)
+                                                                      | None => true end) P
+                                        | Nt _ => true end) (p_exp r)) P.
 End Cls.
 
 (* ---- cases --------------------------------------------------------------------------------------- *)
@@ -218,6 +233,7 @@ Definition check_case (c : rcase) : bool :=
   let us := uscore_of (c_names c) in
   check_rules c
   && Bool.eqb (class_b us (c_rules c)) (c_in_class c)
+  && (negb (c_need_sup c) || (extra_b us (c_rules c) && lits_b (c_rules c) (lookup_lit (c_lits c)) && disj_b (c_rules c)))
   && forallb (check_run c (c_need_sup c)) (c_runs c).
 
 (* finer verdicts used by the harness to say which observation point disagrees *)
@@ -225,6 +241,7 @@ Definition check_case_code (c : rcase) : nat :=
   let us := uscore_of (c_names c) in
   if negb (check_rules c) then 1
   else if negb (Bool.eqb (class_b us (c_rules c)) (c_in_class c)) then 2
+  else if negb (negb (c_need_sup c) || (extra_b us (c_rules c) && lits_b (c_rules c) (lookup_lit (c_lits c)) && disj_b (c_rules c))) then 2
   else if negb (forallb (fun r => let '(_, ms, _, _) := r in forallb (check_match c (c_need_sup c)) ms) (c_runs c)) then 3
   else if negb (forallb (check_run c (c_need_sup c)) (c_runs c)) then 4
   else 0.
